@@ -19,7 +19,7 @@ SPEC = dict(
     quick_s=45, thorough_s=600,
     rule=("one run = one tape: drawn limit table per scope class (system, transient, allow-listed system/transient, "
           "service, service-peer, protocol, protocol-peer, peer, conn, stream; every field from {0,1,2,small,large,max}), "
-          "per-subnet caps from {1,2,8}, allow-list (IP and IP+peer), then either a sequential history of 20-80 operations "
+          "per-subnet caps from {1,2,8}, allow-list (IP and IP+peer), whether the scope-creating ViewService/ViewProtocol/ViewPeer calls are used for observation (half of the runs: no), then either a sequential history of 20-80 operations "
           "(OpenConnection, SetPeer, OpenStream, SetProtocol, SetService, ReserveMemory, ReleaseMemory, BeginSpan, Done, "
           "View*-scope reservations, clock advance/GC) checked against the ledger after every operation, or 2-4 client "
           "tasks executing drawn operation lists over shared holders under a seeded lock-level schedule with an auditor "
@@ -36,7 +36,8 @@ SPEC = dict(
             "subnet-cap-refusal", "subnet-readmits-after-release",
             "priority-scaled-refusal", "memory-near-overflow-refusal",
             "done-repeated", "done-on-closed-owner", "reserve-on-closed-scope",
-            "concurrent-refusal-with-op-in-flight", "concurrent-done-race", "auditor-sample"],
+            "concurrent-refusal-with-op-in-flight", "concurrent-done-race", "auditor-sample",
+            "observation-without-creating-views"],
     real=["p2p/host/resource-manager (whole package, instrumented: sync->simsync, go->simrt.Go, select, map ranges)",
           "x/rate, go-multiaddr, core/network (uninstrumented, no goroutines)"],
     stubs=[],
